@@ -22,6 +22,7 @@ import MW.Lemmas.PendHistCredRun
 import MW.Lemmas.PendHistCredEx
 import MW.Lemmas.PendHistNotifyEx
 import MW.Lemmas.PendHistComposeEx
+import MW.Lemmas.PendHistNotifySpecEx
 import MW.Lemmas.TxmgrCodecRec
 namespace MW.Props.C09
 open MW MW.Model.Ledger MW.Lemmas.LedgerPending
@@ -715,6 +716,67 @@ open MW.Lemmas.PendHist MW.Lemmas.PendHist.Compose MW.Lemmas.PendHist.Notify in
 /-- the domain is met by the reorganising notification above (G-B1-B2 → G-B1-B2x, fork point G-B1, T2 pending); both
     sides are {T2, T1} there -/
 example : NotifyDom exE.env [exG, exB1] [exB2] [exB2x] [exT2] := exNotifyDom
+
+open MW.Lemmas.PendHist.Compose in
+/-- NECESSITY of the coinbase clause of `NotifyDom` (Round 6c), AT the fork point: when the new branch carries the SAME
+    coinbase transaction as the old one (G-B1(C1) → G-B1x(C1)-B2x(C2x, P), P pending spends C1:0, T pending spends P:0) the
+    one-shot move confirms P and keeps T, the composition drops both (disconnecting B1 removes C1: P orphaned, T its
+    child).  The model and the REAL CODE follow the composition: corpus-candidates/C09-same-coinbase-both-branches.ops,
+    `./check C09 --replay`: impl = model `-`, spec `T:r`.  The clause is not implied by the validity of each branch. -/
+theorem notify_dom_coinbase_necessary :
+    ((Spec.Pending.onChainMoved scE ([scG] ++ scOld) ([scG] ++ scNew) [scP, scT]).map (·.id) = ["T"] ∧
+     (connFold scE [scG] scNew (discFold scE [scG] scOld ([scG] ++ scOld, [scP, scT]))).2.map (·.id) = []) ∧
+    ¬ NotifyDom scE [scG] scOld scNew [scP, scT] := ⟨sc_same_coinbase, sc_not_notifyDom⟩
+
+open MW.Lemmas.PendHist MW.Lemmas.PendHist.Cred MW.Lemmas.PendHist.Notify MW.Lemmas.PendHist.Compose
+  MW.Lemmas.PendHist.NotifySpec MW.Lemmas.Ledger in
+/-- NOTIFY REFINES ONE `onChainMoved`, for a given trace (Round 6c).  World satisfying `HInvC`, follower's best block = the
+    wallet's tip, wallet chain `c0 ++ old`; a trace of `old.length` disconnects and the connects of `bs` ending in the store
+    `s'` (`notify_trace_heights` provides it for a successful `processBlock`); the events inside the domain `HOK` of
+    `pending_refines`; the move inside `NotifyDom` (EXPLICIT hypothesis: `HOK` does not imply it — the coinbase clause,
+    `notify_dom_coinbase_necessary`; the other clauses are facts of two valid branches).  Then `s'` holds the books of
+    `c0 ++ bs` and its pending buckets represent (`PendRel`, `CredRel`) the pending list after ONE
+    `Spec.Pending.onChainMoved (c0 ++ old) (c0 ++ bs)` — the move the driver's specification applies per notification. -/
+theorem notify_trace_refines (rank : TxId → Nat) (E : HEnv) (w : HW) (H : HInvC rank E w)
+    (hbest : w.v.best.height + 1 = w.sp.chain.length) (sm s' : Store) (n : Nat) (bs : List Block)
+    (hd : DReachFrom (E.ctx w.node) w.v.best.height w.s sm n)
+    (hc : CReachL (E.ctx w.node) (readyWallets sm E.wallets) sm s' bs)
+    (c0 old : List Block) (hch : w.sp.chain = c0 ++ old) (hlen : old.length = n)
+    (hD : ∀ x ∈ worldsH E w (notifyEvs n bs), HOK rank E x.1 x.2)
+    (hN : NotifyDom E.env c0 old bs w.sp.pend) :
+    Inv (E.ctx w.node) s' (c0 ++ bs) ∧
+    PendRel rank s' (Spec.Pending.onChainMoved E.env (c0 ++ old) (c0 ++ bs) w.sp.pend) ∧
+    CredRel E.env s' (Spec.Pending.onChainMoved E.env (c0 ++ old) (c0 ++ bs) w.sp.pend) :=
+  trace_refines w H hbest hd hc c0 old hch hlen hD hN
+
+open MW.Lemmas.PendHist MW.Lemmas.PendHist.Cred MW.Lemmas.PendHist.Notify MW.Lemmas.PendHist.Compose
+  MW.Lemmas.PendHist.NotifySpec MW.Lemmas.Ledger in
+/-- … and for the function the driver executes: a successful `processBlock` determines `n` and `bs` with the above -/
+theorem notify_refines (rank : TxId → Nat) (E : HEnv) (w : HW) (H : HInvC rank E w)
+    (hbest : w.v.best.height + 1 = w.sp.chain.length) (b : Block) (s' : Store) (v' : Vol)
+    (h : processBlock (E.ctx w.node) w.s w.v b = (s', v', true)) :
+    ∃ n bs, ∀ c0 old, w.sp.chain = c0 ++ old → old.length = n →
+      (∀ x ∈ worldsH E w (notifyEvs n bs), HOK rank E x.1 x.2) → NotifyDom E.env c0 old bs w.sp.pend →
+      Inv (E.ctx w.node) s' (c0 ++ bs) ∧
+      PendRel rank s' (Spec.Pending.onChainMoved E.env (c0 ++ old) (c0 ++ bs) w.sp.pend) ∧
+      CredRel E.env s' (Spec.Pending.onChainMoved E.env (c0 ++ old) (c0 ++ bs) w.sp.pend) :=
+  MW.Lemmas.PendHist.NotifySpec.notify_refines w H hbest b s' v' h
+
+open MW.Lemmas.PendHist MW.Lemmas.PendHist.Cred MW.Lemmas.PendHist.Notify MW.Lemmas.PendHist.Compose
+  MW.Lemmas.PendHist.NotifySpec MW.Lemmas.Ledger in
+/-- non-vacuity: the reorganising notification G-B1-B2 → G-B1-B2x meets every hypothesis of `notify_trace_refines`
+    (`HInvC`, best block, trace, decomposition, `HOK`, `NotifyDom`); the conclusion on it; the one-shot list is {T2, T1} -/
+example : HInvC exRankH exE exV ∧ exV.v.best.height + 1 = exV.sp.chain.length ∧
+    DReachFrom (exE.ctx exV.node) exV.v.best.height exV.s exS6 1 ∧
+    CReachL (exE.ctx exV.node) (readyWallets exS6 exE.wallets) exS6 exS7 [exB2x] ∧
+    exV.sp.chain = [exG, exB1] ++ [exB2] ∧
+    (∀ x ∈ worldsH exE exV (notifyEvs 1 [exB2x]), HOK exRankH exE x.1 x.2) ∧
+    NotifyDom exE.env [exG, exB1] [exB2] [exB2x] exV.sp.pend :=
+  ⟨exHInvCV, exBestV, exTraceD, exTraceC, exChainV, exDomainV, exNotifyDomV⟩
+open MW.Lemmas.PendHist MW.Lemmas.PendHist.Notify MW.Lemmas.PendHist.NotifySpec in
+example : (Spec.Pending.onChainMoved exE.env ([exG, exB1] ++ [exB2]) ([exG, exB1] ++ [exB2x]) exV.sp.pend).map (·.id) = ["T2", "T1"] ∧
+    exS7.pending.map (·.1) = ["T1", "T2"] ∧
+    (processBlock (exE.ctx exV.node) exV.s exV.v exB2x).1.pending.map (·.1) = ["T1", "T2"] := exRefines_obs
 
 /-- FORMERLY OPEN (2), PROVED in Round 6: the credit relation along ALL histories of `pending_refines`, i.e.
     `credit_refines_partial` without the hypothesis at the disconnect steps.  Receive, connect and the purge of disconnect
